@@ -118,7 +118,10 @@ func newHndMachine(c *Ctx) (*hndMachine, error) {
 			return false
 		}
 		switch fn.Name() {
-		case "call", "callReady", "exec", "run", "Func", "Call", "Eval", "Load", "btErr", "mkFunc", "Yield":
+		case "exec", "run", "Func", "Call", "Eval", "Load", "btErr", "mkFunc", "Yield":
+			return false
+		}
+		if pk, rd := c.callProtocol(); (pk != nil && c.Info.Defs[pk.Name] == o) || (rd != nil && c.Info.Defs[rd.Name] == o) {
 			return false
 		}
 		sig := fn.Type().(*types.Signature)
